@@ -19,6 +19,11 @@ pub fn tables(out: &str) -> bool {
     s.push_str(&body.join(";\n"));
     s.push_str("\n].\n");
     s.push_str(&format!("Definition ts_table_len : N := {}.\n", rows.len()));
+    // the strings the case printers abbreviate as (u k)
+    s.push_str("Definition upool : list str := [\n");
+    let pool: Vec<String> = pool().0.iter().map(|x| format!("  {}", c_str(x))).collect();
+    s.push_str(&pool.join(";\n"));
+    s.push_str("\n].\n");
     std::fs::create_dir_all(out).unwrap();
     let mut f = std::fs::File::create(format!("{out}/GenTsSupport.v")).unwrap();
     f.write_all(s.as_bytes()).unwrap();
@@ -274,19 +279,23 @@ pub fn cases(ctx: &Ctx) -> Vec<Case> {
     let lists5 = [0usize, 1, 5, 6, 8];
     let pick15 = |k: usize, pos: usize| -> PcP { let a = k / 5; let t = lists5[k % 5]; PcP { id: (2 * pos + 1) as u8, abs: u.abs[a].clone(), ts: u.ts_lists[t].clone() } };
     let total34: usize = 15usize.pow(3) + 15usize.pow(4);
-    let budget34 = if thorough { u.cfgs.len() * total34 } else { ctx.n / 5 };
+    let budget34 = ctx.n / 5;
     let decode = |mut code: usize| -> Vec<PcP> {
         let k = if code < 15usize.pow(3) { 3 } else { code -= 15usize.pow(3); 4 };
         (0..k).map(|pos| { let c = code % 15; code /= 15; pick15(c, pos) }).collect()
     };
     if thorough {
-        // complete on the implementation with the direct oracle; the model is evaluated on all 3-context
-        // requests and on every 8th 4-context request (the Coq side of the others is left empty)
+        // complete on the implementation with the direct oracle (cheap: no Coq term, no description);
+        // the model is evaluated on an evenly spread subset of at most n/2 of these requests
+        let all = u.cfgs.len() * total34;
+        let stride = (all + (ctx.n / 2).max(1) - 1) / (ctx.n / 2).max(1);
+        let mut g = 0usize;
         for cfg in &u.cfgs { for code in 0..total34 {
             if let Some(mut c) = mk_case("universe:3-4ctx", false, cfg, &Msg::Rq(std_rq(decode(code)))) {
-                if code >= 15usize.pow(3) && code % 8 != 0 { c.coq = String::new(); c.desc = json!({"bucket": "universe:4ctx-oracle-only"}); }
+                if g % stride != 0 { c.coq = String::new(); c.key = format!("u34|{}|{}", g, cfg.promiscuous); c.desc = json!({"bucket": "universe:3-4ctx-oracle-only"}); }
                 out.push(c);
             }
+            g += 1;
         } }
     } else {
         for _ in 0..budget34 {
@@ -310,7 +319,9 @@ pub fn cases(ctx: &Ctx) -> Vec<Case> {
     }
     // ---- random larger requests and configurations until the budget is used
     let mut i = 0;
-    while out.len() < ctx.n {
+    let mut with_term = out.iter().filter(|c| !c.coq.is_empty()).count();
+    while with_term < ctx.n {
+        with_term += 1;
         let cfg = if r.chance(1, 2) { r.pick(&u.cfgs).clone() } else { rand_cfg(&mut r, &u, &reg) };
         let big = i % 3 == 0;
         let msg = Msg::Rq(rand_rq(&mut r, &u, &reg, big));
